@@ -8,6 +8,8 @@ package main
 
 import (
 	"fmt"
+	"reflect"
+	"time"
 
 	"github.com/welllog/golib/ringz"
 
@@ -30,6 +32,89 @@ type ringSut struct {
 	// operations; the operations' own results are still compared
 	quiet     int
 	quietCase bool
+	tag       string // prefix of the layout counters ("ring_", "grid_", "ringbig_")
+	// what the workload really produced (flushed into the case counters by flush)
+	n [ringCounters]int64
+}
+
+const (
+	rPushOK = iota
+	rPushRefused
+	rPopOK
+	rPopRefused
+	rPeekOK
+	rPeekEmpty
+	rSeenFull
+	rSeenEmpty
+	rRecapNonPositive
+	rRecapSame
+	rRecapBelowLen
+	rRecapShrink
+	rRecapGrow
+	rRecapToLen
+	rExpandPlainPush
+	rReinit
+	ringCounters
+)
+
+var ringCounterNames = [ringCounters]string{
+	"ring_push_ok", "ring_push_refused_full", "ring_pop_ok", "ring_pop_refused_empty",
+	"ring_peek_ok", "ring_peek_refused_empty", "ring_observed_full", "ring_observed_empty",
+	"ring_recap_rejected_nonpositive", "ring_recap_rejected_same", "ring_recap_rejected_below_len",
+	"ring_recap_shrink_ok", "ring_recap_grow_ok", "ring_recap_to_exactly_len_ok",
+	"ring_pushwithexpand_not_full", "ring_reinits",
+}
+
+// ringLayout reads Ring's private head/tail indices. Coverage counters only: no verdict
+// depends on it, and when the representation has no such fields the layout counters (and
+// their floors) are dropped.
+func ringLayout(r *ringz.Ring[int]) (head, tail int, ok bool) {
+	defer func() {
+		if recover() != nil {
+			ok = false
+		}
+	}()
+	v := reflect.ValueOf(r).Elem()
+	h, t := v.FieldByName("head"), v.FieldByName("tail")
+	if !h.IsValid() || !t.IsValid() || h.Kind() != reflect.Int || t.Kind() != reflect.Int {
+		return 0, 0, false
+	}
+	return int(h.Int()), int(t.Int()), true
+}
+
+var ringLayoutReadable = func() (ok bool) {
+	defer func() {
+		if recover() != nil {
+			ok = false
+		}
+	}()
+	r := ringz.New[int](2)
+	_, _, ok = ringLayout(&r)
+	return ok
+}()
+
+// noteLayout counts the layout a Recap / an expanding PushWithExpand starts from.
+func (s *ringSut) noteLayout(what string) {
+	if !ringLayoutReadable || len(s.m) == 0 {
+		return
+	}
+	h, t, ok := ringLayout(s.r)
+	switch {
+	case !ok:
+	case h > t:
+		s.c.Add(what+"_on_wrapped_layout", 1)
+	case h > 0:
+		s.c.Add(what+"_on_offset_layout", 1)
+	}
+}
+
+func (s *ringSut) flush() {
+	for i, v := range s.n {
+		if v != 0 {
+			s.c.Add(ringCounterNames[i], v)
+		}
+	}
+	s.n = [ringCounters]int64{}
 }
 
 func (s *ringSut) observe(after string) bool {
@@ -63,6 +148,15 @@ func (s *ringSut) observe(after string) bool {
 		c.Failf("ring-peek", "after %s: Peek=(%d,%v), model content %v", after, pv, pok, s.m)
 		return false
 	}
+	if pok {
+		s.n[rPeekOK]++
+	} else {
+		s.n[rPeekEmpty]++
+		s.n[rSeenEmpty]++
+	}
+	if len(s.m) == s.cap {
+		s.n[rSeenFull]++
+	}
 	return true
 }
 
@@ -81,6 +175,9 @@ func (s *ringSut) push() bool {
 	}
 	if ok {
 		s.m = append(s.m, v)
+		s.n[rPushOK]++
+	} else {
+		s.n[rPushRefused]++
 	}
 	s.hash = ev.Mix(s.hash, 1, uint64(v))
 	return s.observe("Push")
@@ -93,12 +190,16 @@ func (s *ringSut) pop() bool {
 		return false
 	}
 	s.c.Logf("Pop() -> (%d,%v)", v, ok)
-	if ok != (len(s.m) > 0) || (ok && v != s.m[0]) || (!ok && v != 0) {
+	// the value that accompanies a failed Pop is not part of the statement
+	if ok != (len(s.m) > 0) || (ok && v != s.m[0]) {
 		s.c.Failf("ring-pop", "Pop() = (%d,%v), model content %v", v, ok, s.m)
 		return false
 	}
 	if ok {
 		s.m = s.m[1:]
+		s.n[rPopOK]++
+	} else {
+		s.n[rPopRefused]++
 	}
 	s.hash = ev.Mix(s.hash, 2)
 	return s.observe("Pop")
@@ -106,6 +207,9 @@ func (s *ringSut) pop() bool {
 
 func (s *ringSut) recap(n int) bool {
 	var ok bool
+	if n > 0 && n != s.cap && n >= len(s.m) {
+		s.noteLayout(s.tag + "recap")
+	}
 	if !s.c.Guard("Recap", func() { ok = s.r.Recap(n) }) {
 		return false
 	}
@@ -116,9 +220,26 @@ func (s *ringSut) recap(n int) bool {
 		return false
 	}
 	if ok {
+		switch {
+		case n < s.cap:
+			s.n[rRecapShrink]++
+		default:
+			s.n[rRecapGrow]++
+		}
+		if n == len(s.m) {
+			s.n[rRecapToLen]++ // the ring is full right after the Recap
+		}
 		s.cap = n
 		s.c.Add("ring_recaps_ok", 1)
 	} else {
+		switch {
+		case n <= 0:
+			s.n[rRecapNonPositive]++
+		case n == s.cap:
+			s.n[rRecapSame]++
+		default:
+			s.n[rRecapBelowLen]++
+		}
 		s.c.Add("ring_recaps_rejected", 1)
 	}
 	s.hash = ev.Mix(s.hash, 3, uint64(n))
@@ -128,6 +249,9 @@ func (s *ringSut) recap(n int) bool {
 func (s *ringSut) pushExpand() bool {
 	v := s.next
 	s.next++
+	if len(s.m) == s.cap {
+		s.noteLayout(s.tag + "expand")
+	}
 	if !s.c.Guard("PushWithExpand", func() { s.r.PushWithExpand(v) }) {
 		return false
 	}
@@ -142,6 +266,8 @@ func (s *ringSut) pushExpand() bool {
 		}
 		s.cap = nc
 		s.c.Add("ring_expands", 1)
+	} else {
+		s.n[rExpandPlainPush]++
 	}
 	s.m = append(s.m, v)
 	s.hash = ev.Mix(s.hash, 4, uint64(v))
@@ -165,7 +291,7 @@ func ringCase(c *ev.Case) {
 	if !c.Guard("New", func() { r = ringz.New[int](cp) }) {
 		return
 	}
-	s := &ringSut{c: c, r: &r, cap: cp, next: 1, quietCase: rng.Chance(1, 3)}
+	s := &ringSut{c: c, r: &r, cap: cp, next: 1, quietCase: rng.Chance(1, 3), tag: "ring_"}
 	if !s.observe("New") {
 		return
 	}
@@ -188,6 +314,7 @@ func ringCase(c *ev.Case) {
 			ok = c.Guard("Init", func() { s.r.Init(n) })
 			c.Logf("Init(%d)", n)
 			s.m, s.cap = nil, n
+			s.n[rReinit]++
 			ok = ok && s.observe("Init")
 		default:
 			// run of pushes or pops to reach full / empty
@@ -208,10 +335,68 @@ func ringCase(c *ev.Case) {
 	if !s.observe("end of sequence") || !s.drainCheck() {
 		return
 	}
+	s.flush()
+	c.Add("ring_sequences", 1)
 	c.Distinct(s.hash)
 	if c.WantSample() {
 		c.Sample(fmt.Sprintf("ring: start cap %d, %d operations (Push/Pop/Recap/PushWithExpand/Init), final cap %d", cp, nops, s.cap))
 	}
+}
+
+// rotateAndFill moves the ring's content rot positions around the buffer and leaves fill
+// elements in it. The rotation is done with one element held: a Ring that runs empty
+// restarts at the beginning of its buffer, so push/pop pairs on an empty ring would
+// not move anything and no wrapped layout would ever be produced. Afterwards the oldest
+// element sits rot positions (modulo the capacity) into the buffer.
+func (s *ringSut) rotateAndFill(rot, fill int) bool {
+	if s.cap < 2 || rot == 0 {
+		for i := 0; i < rot; i++ {
+			if !s.push() || !s.pop() {
+				return false
+			}
+		}
+		for i := 0; i < fill; i++ {
+			if !s.push() {
+				return false
+			}
+		}
+		return true
+	}
+	if !s.push() {
+		return false
+	}
+	for i := 0; i < rot; i++ {
+		if !s.push() || !s.pop() {
+			return false
+		}
+	}
+	if fill == 0 {
+		return s.pop()
+	}
+	for i := 1; i < fill; i++ {
+		if !s.push() {
+			return false
+		}
+	}
+	return true
+}
+
+// gridWrapped: the grid points whose content wraps around the end of the buffer at the
+// moment of the Recap / of the first expansion.
+func gridWrapped() (recap, expand int64) {
+	for _, g := range grid {
+		if g.cap < 2 || g.rot%g.cap == 0 {
+			continue
+		}
+		if g.ncap == 1<<20 {
+			if g.fill > 0 {
+				expand++ // the ring is filled up before it expands: a full ring with head > 0 is wrapped
+			}
+		} else if g.fill > 0 && g.rot%g.cap+g.fill > g.cap && g.ncap > 0 && g.ncap != g.cap && g.ncap >= g.fill {
+			recap++
+		}
+	}
+	return
 }
 
 // gridCase enumerates capacity x rotation x fill x new capacity for Recap, and
@@ -239,17 +424,10 @@ func gridCase(c *ev.Case) {
 	if !c.Guard("New", func() { r = ringz.New[int](g.cap) }) {
 		return
 	}
-	s := &ringSut{c: c, r: &r, cap: g.cap, next: 1}
+	s := &ringSut{c: c, r: &r, cap: g.cap, next: 1, tag: "grid_"}
 	c.Logf("grid point cap=%d rot=%d fill=%d ncap=%d", g.cap, g.rot, g.fill, g.ncap)
-	for i := 0; i < g.rot; i++ {
-		if !s.push() || !s.pop() {
-			return
-		}
-	}
-	for i := 0; i < g.fill; i++ {
-		if !s.push() {
-			return
-		}
+	if !s.rotateAndFill(g.rot, g.fill) {
+		return
 	}
 	if g.ncap == 1<<20 {
 		// PushWithExpand until the ring has grown twice
@@ -275,10 +453,90 @@ func gridCase(c *ev.Case) {
 	if !s.drainCheck() {
 		return
 	}
+	s.flush()
 	c.Add("grid_points", 1)
 	c.Distinct(ev.Mix(uint64(g.cap), uint64(g.rot), uint64(g.fill), uint64(g.ncap+2)))
 	if c.WantSample() {
 		c.Sample(fmt.Sprintf("grid: cap=%d rotation=%d fill=%d new capacity=%d", g.cap, g.rot, g.fill, g.ncap))
+	}
+}
+
+// ringBigCase: Ring capacities far above the ones of the sequence and grid engines (the
+// statement is for all capacities): around every power of two from 16 to 65536 and a few
+// round numbers. Three rounds of: rotate the content to a random offset, set a fill level,
+// Recap (to exactly Len, below it, same, larger, smaller) or PushWithExpand on the full
+// ring, then fill up, overflow, and finally drain in order.
+var ringBigCaps = func() []int {
+	var out []int
+	for k := 4; k <= 16; k++ {
+		p := 1 << k
+		out = append(out, p-1, p, p+1)
+	}
+	return append(out, 100, 300, 1000, 5000, 10000, 40000)
+}()
+
+func ringBigCase(c *ev.Case) {
+	rng := c.Rng
+	cp := ringBigCaps[c.Index%len(ringBigCaps)]
+	var r ringz.Ring[int]
+	if !c.Guard("New", func() { r = ringz.New[int](cp) }) {
+		return
+	}
+	s := &ringSut{c: c, r: &r, cap: cp, next: 1, tag: "ringbig_"}
+	if !s.observe("New") {
+		return
+	}
+	c.Logf("big ring: capacity %d", cp)
+	for round := 0; round < 3; round++ {
+		if !s.drainCheck() {
+			return
+		}
+		rot := rng.Intn(s.cap)
+		fill := rng.Pick(1, s.cap/2, s.cap-1, s.cap, s.cap, rng.Range(0, s.cap))
+		if !s.rotateAndFill(rot, fill) {
+			return
+		}
+		if rot+fill > s.cap && fill > 0 {
+			c.Add("ringbig_wrapped_contents", 1)
+		}
+		n := len(s.m)
+		if rng.Chance(1, 3) {
+			// PushWithExpand: up to the capacity as a plain push, then growing
+			for k := s.cap - n + 2; k > 0; k-- {
+				if !s.pushExpand() {
+					return
+				}
+			}
+		} else {
+			for _, nc := range []int{n - 1, s.cap, 0, rng.Pick(n, n, n+1, s.cap-1, s.cap+1, 2*s.cap, rng.Range(n, 2*s.cap))} {
+				if !s.recap(nc) {
+					return
+				}
+			}
+		}
+		c.Max("ringbig_max_len_held", int64(len(s.m)))
+		// the ring must keep working in the new layout: fill up, overflow
+		for len(s.m) < s.cap {
+			if !s.push() {
+				return
+			}
+		}
+		if !s.push() {
+			return
+		}
+		if s.cap > 3*cp {
+			break // keep the cost bounded
+		}
+	}
+	if !s.drainCheck() {
+		return
+	}
+	s.flush()
+	c.Add("ringbig_cases", 1)
+	c.Max("ringbig_max_capacity", int64(s.cap))
+	c.Distinct(ev.Mix(s.hash, uint64(cp), 777))
+	if c.WantSample() {
+		c.Sample(fmt.Sprintf("ring-bigcap: New(%d), three rounds of rotate / fill / Recap or PushWithExpand / fill up / overflow, drained in order; final capacity %d", cp, s.cap))
 	}
 }
 
@@ -293,6 +551,13 @@ type syncSut struct {
 	hash      uint64
 	quiet     int
 	quietCase bool
+	// timedLeft: how many timed waits that have to run out this case may still make
+	timedLeft int
+	// absolute counter positions (wrap engine): boundary is 2^32 or 2^31, 0 = not tracked
+	boundary, headAbs, tailAbs uint64
+	pushOK, pushRefused        [4]int64
+	popOK, popRefused          [4]int64
+	n                          [syncCounters]int64
 }
 
 func (s *syncSut) observe(after string) bool {
@@ -316,16 +581,58 @@ func (s *syncSut) observe(after string) bool {
 		s.c.Failf("syncring-observers", "after %s: Len=%d Cap=%d IsEmpty=%v IsFull=%v, model holds %d of %d", after, n, cp, e, f, len(s.m), s.cap)
 		return false
 	}
+	if e {
+		s.n[sSeenEmpty]++
+	}
+	if f {
+		s.n[sSeenFull]++
+	}
 	return true
+}
+
+// Call variants. kind 3 is a timed wait (positive maxWait): with room / an element it
+// must complete at once like the others; on a full / an empty ring nobody else can make
+// room in a sequential history, so it must come back with false when the wait is over
+// (the verdict is the result, never the time it took). Those expiring calls cost at
+// least one 10 ms tick each, so a case has a budget for them (timedLeft); without
+// budget the call is made with maxWait 0.
+var (
+	pushNames = [...]string{"Push", "PushWait(0)", "PushWait(-1)", "PushWait(+d)"}
+	popNames  = [...]string{"Pop", "PopWait(0)", "PopWait(-1)", "PopWait(+d)"}
+)
+
+func (s *syncSut) waitFor(blocked bool) time.Duration {
+	if blocked {
+		return time.Duration(s.c.Rng.Pick(1, 1000, 1000000, 9000000))
+	}
+	return time.Duration(s.c.Rng.Pick(1, 1000, 1000000, 20000000))
+}
+
+// straddling: the tail counter has passed the boundary (2^32 or 2^31) and the head
+// counter has not — computed from the seek position and the successful calls.
+func (s *syncSut) straddling() bool {
+	return s.boundary != 0 && s.headAbs < s.boundary && s.tailAbs >= s.boundary
 }
 
 func (s *syncSut) push(kind int) bool {
 	v := s.next
 	s.next++
 	var ok bool
-	name := [...]string{"Push", "PushWait(0)", "PushWait(-1)"}[kind]
-	if kind == 2 && len(s.m) == s.cap {
-		kind, name = 1, "PushWait(0)" // a blocking push on a full ring would spin forever
+	full := len(s.m) == s.cap
+	if kind == 2 && full {
+		kind = 1 // a blocking push on a full ring would spin forever
+	}
+	if kind == 3 && full {
+		if s.timedLeft == 0 {
+			kind = 1
+		} else {
+			s.timedLeft--
+		}
+	}
+	name := pushNames[kind]
+	var d time.Duration
+	if kind == 3 {
+		d = s.waitFor(full)
 	}
 	if !s.c.Guard(name, func() {
 		switch kind {
@@ -333,19 +640,31 @@ func (s *syncSut) push(kind int) bool {
 			ok = s.r.Push(v)
 		case 1:
 			ok = s.r.PushWait(v, 0)
-		default:
+		case 2:
 			ok = s.r.PushWait(v, -1)
+		default:
+			ok = s.r.PushWait(v, d)
 		}
 	}) {
 		return false
 	}
-	s.c.Logf("%s %d -> %v", name, v, ok)
-	if ok != (len(s.m) < s.cap) {
-		s.c.Failf("syncring-push", "%s(%d) returned %v with %d of %d held", name, v, ok, len(s.m), s.cap)
+	s.c.Logf("%s %d (maxWait %v) -> %v", name, v, d, ok)
+	if ok != !full {
+		s.c.Failf("syncring-push", "%s(%d) (maxWait %v) returned %v with %d of %d held", name, v, d, ok, len(s.m), s.cap)
 		return false
 	}
 	if ok {
 		s.m = append(s.m, v)
+		s.pushOK[kind]++
+		s.tailAbs++
+	} else {
+		s.pushRefused[kind]++
+		if s.straddling() {
+			s.n[sFullRefusedStraddling]++
+		}
+	}
+	if s.straddling() {
+		s.n[sOpsStraddling]++
 	}
 	s.hash = ev.Mix(s.hash, 1, uint64(kind))
 	return s.observe(name)
@@ -354,9 +673,21 @@ func (s *syncSut) push(kind int) bool {
 func (s *syncSut) pop(kind int) bool {
 	var v int
 	var ok bool
-	name := [...]string{"Pop", "PopWait(0)", "PopWait(-1)"}[kind]
-	if kind == 2 && len(s.m) == 0 {
-		kind, name = 1, "PopWait(0)"
+	empty := len(s.m) == 0
+	if kind == 2 && empty {
+		kind = 1
+	}
+	if kind == 3 && empty {
+		if s.timedLeft == 0 {
+			kind = 1
+		} else {
+			s.timedLeft--
+		}
+	}
+	name := popNames[kind]
+	var d time.Duration
+	if kind == 3 {
+		d = s.waitFor(empty)
 	}
 	if !s.c.Guard(name, func() {
 		switch kind {
@@ -364,22 +695,70 @@ func (s *syncSut) pop(kind int) bool {
 			v, ok = s.r.Pop()
 		case 1:
 			v, ok = s.r.PopWait(0)
-		default:
+		case 2:
 			v, ok = s.r.PopWait(-1)
+		default:
+			v, ok = s.r.PopWait(d)
 		}
 	}) {
 		return false
 	}
-	s.c.Logf("%s -> (%d,%v)", name, v, ok)
-	if ok != (len(s.m) > 0) || (ok && v != s.m[0]) || (!ok && v != 0) {
-		s.c.Failf("syncring-pop", "%s = (%d,%v), model content %v", name, v, ok, s.m)
+	s.c.Logf("%s (maxWait %v) -> (%d,%v)", name, d, v, ok)
+	// the value that accompanies a failed Pop is not part of the statement
+	if ok == empty || (ok && v != s.m[0]) {
+		s.c.Failf("syncring-pop", "%s (maxWait %v) = (%d,%v), model content %v", name, d, v, ok, s.m)
 		return false
 	}
 	if ok {
 		s.m = s.m[1:]
+		s.popOK[kind]++
+		s.headAbs++
+	} else {
+		s.popRefused[kind]++
+		if s.boundary != 0 && s.headAbs == s.boundary {
+			s.n[sEmptyRefusedAtBoundary]++
+		}
+	}
+	if s.straddling() {
+		s.n[sOpsStraddling]++
 	}
 	s.hash = ev.Mix(s.hash, 2, uint64(kind))
 	return s.observe(name)
+}
+
+const (
+	sOpsStraddling = iota
+	sFullRefusedStraddling
+	sEmptyRefusedAtBoundary
+	sSeenFull
+	sSeenEmpty
+	syncCounters
+)
+
+var syncCounterNames = [syncCounters]string{"ops_while_straddling", "full_refusals_while_straddling", "empty_refusals_at_the_boundary", "observed_full", "observed_empty"}
+
+// flush adds what the case really did to the counters; prefix names the engine family
+// ("syncring", "wrap_2^32", "wrap_2^31", "timed").
+func (s *syncSut) flush(prefix string) {
+	for k := range pushNames {
+		if s.pushOK[k] != 0 {
+			s.c.Add(prefix+"_ok/"+pushNames[k], s.pushOK[k])
+		}
+		if s.pushRefused[k] != 0 {
+			s.c.Add(prefix+"_refused_full/"+pushNames[k], s.pushRefused[k])
+		}
+		if s.popOK[k] != 0 {
+			s.c.Add(prefix+"_ok/"+popNames[k], s.popOK[k])
+		}
+		if s.popRefused[k] != 0 {
+			s.c.Add(prefix+"_refused_empty/"+popNames[k], s.popRefused[k])
+		}
+	}
+	for i, v := range s.n {
+		if v != 0 {
+			s.c.Add(prefix+"_"+syncCounterNames[i], v)
+		}
+	}
 }
 
 func wantCap(req int) int {
@@ -396,9 +775,9 @@ func (s *syncSut) randomOps(n int) bool {
 		ok := true
 		switch p := rng.Intn(100); {
 		case p < 45:
-			ok = s.push(rng.Pick(0, 0, 0, 1, 2))
+			ok = s.push(rng.Pick(0, 0, 0, 1, 2, 3))
 		case p < 90:
-			ok = s.pop(rng.Pick(0, 0, 0, 1, 2))
+			ok = s.pop(rng.Pick(0, 0, 0, 1, 2, 3))
 		case p < 95:
 			for len(s.m) < s.cap && ok {
 				ok = s.push(0)
@@ -445,6 +824,7 @@ func syncCase(c *ev.Case) {
 	if !s.observe("end of sequence") {
 		return
 	}
+	s.flush("syncring")
 	c.Add("syncring_sequences", 1)
 	c.Distinct(ev.Mix(s.hash, uint64(req)))
 	if c.WantSample() {
@@ -539,8 +919,11 @@ func wrapCase(c *ev.Case) {
 		c.Logf("seek unusable: %s", why)
 		return
 	}
-	r := ringz.NewSync[int](req)
-	cp := r.Cap()
+	var r ringz.SyncRing[int]
+	cp := 0
+	if !c.Guard("NewSync", func() { r = ringz.NewSync[int](req); cp = r.Cap() }) {
+		return
+	}
 	base := uint64(1) << 32
 	if rng.Chance(1, 4) {
 		base = uint64(1) << 31
@@ -548,7 +931,7 @@ func wrapCase(c *ev.Case) {
 	dist := rng.Intn(3*cp + 2)
 	k := uint32(base - uint64(dist))
 	ringseek.Seek(&r, k)
-	s := &syncSut{c: c, r: &r, cap: cp, next: 1}
+	s := &syncSut{c: c, r: &r, cap: cp, next: 1, boundary: base, headAbs: base - uint64(dist), tailAbs: base - uint64(dist)}
 	c.Logf("NewSync(%d) seeked to position %d (%d below %d)", req, k, dist, base)
 	if !s.observe("seek") {
 		return
@@ -565,15 +948,20 @@ func wrapCase(c *ev.Case) {
 	bias := rng.Pick(35, 50, 65) // percentage of pushes: hovers near empty, mid, or full
 	for i := 0; i < 10*cp+2*dist; i++ {
 		if rng.Intn(100) < bias {
-			if !s.push(rng.Pick(0, 1, 2)) {
+			if !s.push(rng.Pick(0, 1, 2, 3)) {
 				return
 			}
-		} else if !s.pop(rng.Pick(0, 1, 2)) {
+		} else if !s.pop(rng.Pick(0, 1, 2, 3)) {
 			return
 		}
 	}
 	if !s.randomOps(6 * cp) {
 		return
+	}
+	if base == 1<<32 {
+		s.flush("wrap_2^32")
+	} else {
+		s.flush("wrap_2^31")
 	}
 	st := ringseek.Read(&r)
 	if base == 1<<32 && st.Tail < k && st.Head < k {
@@ -587,14 +975,89 @@ func wrapCase(c *ev.Case) {
 	}
 }
 
+// timedCase: the timed variants PushWait(v, d) / PopWait(d) with d > 0 in a sequential
+// history. With room / an element they behave like Push / Pop; on a full / an empty ring
+// they have to give up (nobody else can change the ring) and leave it as it was. Half of
+// the cases run on a ring seeked to just below 2^32, so that the timed variants also
+// work across the counter wrap. Every case makes both kinds of expiring call.
+func timedCase(c *ev.Case) {
+	rng := c.Rng
+	req := rng.Range(1, 9)
+	var r ringz.SyncRing[int]
+	if !c.Guard("NewSync", func() { r = ringz.NewSync[int](req) }) {
+		return
+	}
+	s := &syncSut{c: c, r: &r, cap: wantCap(req), next: 1, timedLeft: 4}
+	seeked := false
+	if ok, _ := ringseek.Usable(req); ok && rng.Bool() {
+		dist := rng.Intn(2*s.cap + 1)
+		ringseek.Seek(&r, uint32(1<<32-uint64(dist)))
+		s.boundary, s.headAbs, s.tailAbs = 1<<32, 1<<32-uint64(dist), 1<<32-uint64(dist)
+		seeked = true
+		c.Logf("NewSync(%d) seeked to %d below 2^32", req, dist)
+	}
+	if !s.observe("NewSync") {
+		return
+	}
+	// a timed pop on the empty ring runs out; timed pushes fill the ring; a timed push on the
+	// full ring runs out; timed pops return everything in order
+	if !s.pop(3) {
+		return
+	}
+	for len(s.m) < s.cap {
+		if !s.push(3) {
+			return
+		}
+	}
+	if !s.push(3) {
+		return
+	}
+	for k := rng.Intn(s.cap + 1); k > 0; k-- {
+		if !s.pop(3) {
+			return
+		}
+	}
+	// mixed traffic, mostly timed, hovering near full or near empty; two more expiring calls at most
+	bias := rng.Pick(30, 50, 70)
+	for i, n := 0, rng.Range(20, 80); i < n; i++ {
+		if rng.Intn(100) < bias {
+			if !s.push(rng.Pick(0, 1, 2, 3, 3, 3)) {
+				return
+			}
+		} else if !s.pop(rng.Pick(0, 1, 2, 3, 3, 3)) {
+			return
+		}
+	}
+	for len(s.m) > 0 {
+		if !s.pop(3) {
+			return
+		}
+	}
+	if !s.pop(1) {
+		return
+	}
+	s.flush("timed")
+	c.Add("timed_sequences", 1)
+	if seeked {
+		c.Add("timed_sequences_across_2^32", 1)
+	}
+	c.Distinct(ev.Mix(s.hash, uint64(req), 31337))
+	if c.WantSample() {
+		c.Sample(fmt.Sprintf("timed: NewSync(%d) (seeked below 2^32: %v), PopWait(d>0) on the empty ring, PushWait(v, d>0) until full and once more, then mixed traffic with timed calls against the slice model", req, seeked))
+	}
+}
+
 // honestCase: really performs the pushes and pops. Thorough: more than 2^32 pairs.
 var seekUsable, _ = ringseek.Usable(2)
 
 func honestCase(c *ev.Case) {
 	caps := []int{2, 4, 8, 2, 4, 8}
 	req := caps[c.Index%len(caps)]
-	r := ringz.NewSync[int](req)
-	cp := r.Cap()
+	var r ringz.SyncRing[int]
+	cp := 0
+	if !c.Guard("NewSync", func() { r = ringz.NewSync[int](req); cp = r.Cap() }) || cp <= 0 {
+		return
+	}
 	fill := (c.Index * 3) % cp // standing fill level (never full, so every push must succeed)
 	pairs := uint64(1) << 22
 	if c.Thorough() || !seekUsable {
@@ -603,13 +1066,19 @@ func honestCase(c *ev.Case) {
 		pairs = uint64(1)<<32 + uint64(1)<<20
 	}
 	c.Logf("honest run: cap %d standing fill %d, %d push/pop pairs", cp, fill, pairs)
-	for i := 0; i < fill; i++ {
-		if !r.Push(i) {
-			c.Failf("honest-push", "Push failed while filling")
-			return
-		}
-	}
 	bad := ""
+	c.Guard("honest-fill", func() {
+		for i := 0; i < fill; i++ {
+			if !r.Push(i) {
+				bad = "Push failed while filling"
+				return
+			}
+		}
+	})
+	if bad != "" {
+		c.Failf("honest-push", "cap %d: %s", cp, bad)
+		return
+	}
 	c.Guard("honest-loop", func() {
 		for i := uint64(0); i < pairs; i++ {
 			v := int(i) + fill
@@ -671,13 +1140,16 @@ func honestCase(c *ev.Case) {
 	}
 }
 
+const nTimedQuick = 320
+
 func main() {
 	r := ev.New("C10")
-	r.Rule("ring/syncring: one case = seeded operation sequence compared with a slice model after every call (distinct = hash of the operation sequence); grid: the complete list capacity 1..6 x rotation x fill x new capacity -1..2cap+1 (+PushWithExpand); wrap: SyncRing seeked (self-validated against honest rings) to just below 2^32 / 2^31 and driven across; honest: real push/pop pairs (thorough: more than 2^32 per ring)")
+	r.Rule("ring/syncring: one case = seeded operation sequence compared with a slice model after every call (distinct = hash of the operation sequence); grid: the complete list capacity 1..6 x rotation (done with one element held, so that the content really moves around the buffer and wraps) x fill x new capacity -1..2cap+1 (+PushWithExpand); ring-bigcap: capacities around every power of two 16..65536, rotated, Recap/PushWithExpand, overflow, drain; timed: PushWait/PopWait with a positive wait, completing at once with room / an element and running out on a full / an empty ring (the verdict is the result, not the duration); wrap: SyncRing seeked (self-validated against honest rings) to just below 2^32 / 2^31 and driven across; honest: real push/pop pairs (thorough: more than 2^32 per ring)")
 	r.Assume("values are distinct ints so FIFO order is observable")
 	r.Assume("the seek writes private fields (head, tail, slot sequence) found by name; it is used only after it reproduced honest rings for k = 0..3cap+1, otherwise the wrap clause is reported as not covered")
 	r.Cases("ring", r.N(40000, 2000000), ev.Opt{HangViolation: true}, ringCase)
 	r.Cases("ring-grid", len(grid), ev.Opt{HangViolation: true}, gridCase)
+	r.Cases("ring-bigcap", 2*len(ringBigCaps), ev.Opt{HangViolation: true}, ringBigCase)
 	r.Cases("syncring", r.N(20000, 1000000), ev.Opt{HangViolation: true}, syncCase)
 	// cold start: one fresh process per case
 	r.CasesProc("cold-start/ring", 8, ev.Opt{Procs: 8, HangViolation: true}, ringCase)
@@ -690,6 +1162,8 @@ func main() {
 		r.CasesProc("syncring-bigcap/P"+p, len(bigCaps), ev.Opt{Procs: 2, HangViolation: true, Env: []string{"GOMAXPROCS=" + p}}, bigCapCase)
 	}
 	r.Cases("syncring-wrap", r.N(20000, 1000000), ev.Opt{HangViolation: true}, wrapCase)
+	// every case waits for four 10 ms ticks: many workers, they are idle most of the time
+	r.Cases("syncring-timed", r.N(nTimedQuick, 4000), ev.Opt{HangViolation: true, Workers: 16, MaxCaseSeconds: 30}, timedCase)
 	nh := 6
 	if !r.Thorough() && !seekUsable {
 		nh = 3 // each of them is then a full 2^32 run
@@ -701,6 +1175,46 @@ func main() {
 	r.Require("ring_recaps_ok", 1000)
 	r.Require("ring_expands", 1000)
 	r.Require("syncring_sequences", 10000)
+	// Ring: every outcome class of every call has been produced
+	r.Require("ring_sequences", 30000)
+	for _, k := range []string{"ring_push_ok", "ring_pop_ok", "ring_peek_ok"} {
+		r.Require(k, 1000000)
+	}
+	for _, k := range []string{"ring_push_refused_full", "ring_pop_refused_empty", "ring_peek_refused_empty", "ring_observed_full", "ring_observed_empty", "ring_pushwithexpand_not_full"} {
+		r.Require(k, 100000)
+	}
+	for _, k := range []string{"ring_recap_rejected_nonpositive", "ring_recap_rejected_same", "ring_recap_rejected_below_len", "ring_recap_shrink_ok", "ring_recap_grow_ok", "ring_reinits"} {
+		r.Require(k, 10000)
+	}
+	r.Require("ring_recap_to_exactly_len_ok", 3000)
+	r.Require("ringbig_cases", int64(2*len(ringBigCaps)))
+	r.Require("ringbig_wrapped_contents", 50)
+	if ringLayoutReadable {
+		// head/tail readable: the wrapped layouts at the moment of Recap / expansion are counted
+		gr, ge := gridWrapped()
+		r.Require("grid_recap_on_wrapped_layout", gr)
+		r.Require("grid_expand_on_wrapped_layout", ge)
+		r.Require("ring_recap_on_wrapped_layout", 5000)
+		r.Require("ring_expand_on_wrapped_layout", 5000)
+		r.Require("ringbig_recap_on_wrapped_layout", 20)
+		r.Require("ringbig_expand_on_wrapped_layout", 20)
+	} else if !r.IsChild() {
+		r.Add("ring_layout_counters_unavailable", 1)
+	}
+	// SyncRing: every call variant, succeeding and refused
+	for k := range pushNames {
+		r.Require("syncring_ok/"+pushNames[k], 50000)
+		r.Require("syncring_ok/"+popNames[k], 50000)
+	}
+	for _, k := range []int{0, 1} {
+		r.Require("syncring_refused_full/"+pushNames[k], 50000)
+		r.Require("syncring_refused_empty/"+popNames[k], 50000)
+	}
+	r.Require("timed_sequences", int64(r.N(nTimedQuick, 4000)))
+	r.Require("timed_ok/PushWait(+d)", 2000)
+	r.Require("timed_ok/PopWait(+d)", 2000)
+	r.Require("timed_refused_full/PushWait(+d)", int64(r.N(nTimedQuick, 4000)))
+	r.Require("timed_refused_empty/PopWait(+d)", int64(r.N(nTimedQuick, 4000)))
 	r.Require("quiet_windows_closed", 3000)
 	r.Require("bigcap_cases", int64(len(bigCaps)))
 	if r.Thorough() || !seekUsable {
@@ -708,6 +1222,22 @@ func main() {
 	}
 	if ok, why := ringseek.Usable(2); ok {
 		r.Require("wrap_crossings_2^32", 5000)
+		r.Require("wrap_crossings_2^31", 1500)
+		for k := range pushNames {
+			r.Require("wrap_2^32_ok/"+pushNames[k], 100000)
+			r.Require("wrap_2^32_ok/"+popNames[k], 100000)
+		}
+		for _, k := range []int{0, 1} {
+			r.Require("wrap_2^32_refused_full/"+pushNames[k], 50000)
+			r.Require("wrap_2^32_refused_empty/"+popNames[k], 50000)
+		}
+		// full while the tail counter has wrapped and the head counter has not; empty exactly at 2^32
+		r.Require("wrap_2^32_ops_while_straddling", 50000)
+		r.Require("wrap_2^32_full_refusals_while_straddling", 10000)
+		r.Require("wrap_2^32_empty_refusals_at_the_boundary", 1000)
+		r.Require("wrap_2^31_full_refusals_while_straddling", 3000)
+		r.Require("timed_sequences_across_2^32", int64(r.N(nTimedQuick, 4000)/5))
+		r.Require("timed_full_refusals_while_straddling", 40)
 	} else if !r.IsChild() {
 		// representation changed: not an alarm; the quick tier then does not cover the wrap clause
 		fmt.Println("note: counter seek unusable (" + why + "); the 2^32 wrap is covered by honest runs of more than 2^32 push/pop pairs instead (about two minutes)")
